@@ -6,8 +6,8 @@ from ..riverlike import RealScenario, gen_real_cfg
 from ..probes import InjectedFault
 from ..explref import SageRef, Mismatch, compare
 
-SHARDS = {"quick": 1, "thorough": 16}
-N_CFG = {"quick": 700, "thorough": 4000}
+SHARDS = {"quick": 3, "thorough": 16}
+N_CFG = {"quick": 240, "thorough": 4000}
 
 
 def pred_scale(sc):
